@@ -64,7 +64,7 @@ def draw_config(rng, mode="bounded", allow_restart=False, faults=True):
     # state-aware bias towards jobs that something still refers to (a blocked waiter's list, a drop mark):
     # killing / re-adding / finishing exactly those is where incarnations get mixed up
     c["bias_refs"] = rng.random() < 0.5
-    c["near_ids"] = rng.random() < 0.15
+    c["near_ids"] = rng.random() < 0.3
     # a directed motif woven into the random steps of some runs (see QsRun._motif_step)
     c["motif"] = {"kind": rng.choice(["reincarnate", "reincarnate", "deadlines", "window", "window", "window", "waitstorm", "waitstorm"]),
                   "drop": rng.random() < 0.6, "p": rng.choice([0.4, 0.7]), "short": rng.choice([5, 60]),
